@@ -250,10 +250,20 @@ Definition louvain_labels (argsort : list Z -> list nat) (sort_clusters shuffle_
 (* ------------------------------------------------------------------------------------------ *)
 (** * propagation_clustering.py: what follows Propagation.fit
 
-    [_, self.labels_ = np.unique(self.labels_, return_inverse=True)], then _split_vars when bipartite.
-    The estimator accepts sort_clusters, and fit never reads it: the flag is an argument here and is
-    ignored exactly as in the code. *)
-Definition propagation_labels (sort_clusters bipartite : bool) (n_row : nat) (raw : list Z)
+    [_, self.labels_ = np.unique(self.labels_, return_inverse=True)],
+    [if self.sort_clusters: self.labels_ = reindex_labels(self.labels_)] (since /repo 350bc655),
+    then _split_vars when bipartite. *)
+Definition propagation_all (argsort : list Z -> list nat) (sort_clusters : bool) (raw : list Z) : list nat :=
+  let labels := snd (unique_inverse raw) in
+  if sort_clusters then reindex_labels argsort (map Z.of_nat labels) else labels.
+Definition propagation_labels (argsort : list Z -> list nat) (sort_clusters bipartite : bool) (n_row : nat)
+           (raw : list Z) : list nat * option (list nat * list nat) :=
+  let labels := propagation_all argsort sort_clusters raw in
+  if bipartite then let (r, c) := split_vars n_row labels in (r, Some (r, c)) else (labels, None).
+
+(** LEGACY (before /repo 350bc655): fit accepted sort_clusters and never read it.  Kept so that the
+    defect's return is recognised by name (legacy_propagation_sort_clusters_refuted). *)
+Definition legacy_propagation_labels (sort_clusters bipartite : bool) (n_row : nat) (raw : list Z)
   : list nat * option (list nat * list nat) :=
   let labels := snd (unique_inverse raw) in
   if bipartite then let (r, c) := split_vars n_row labels in (r, Some (r, c)) else (labels, None).
